@@ -19,9 +19,13 @@ class _MetaArray(type):
 
     @_intrinsic
     def __getitem__(cls, slice):
-        # An array type with element type and size cannot be parametrised again, the
-        # result would be cached as a subclass of the first parametrisation.
-        assert not hasattr(cls, "_count_"), f"{cls} is already parametrised"
+        if hasattr(cls, "_count_"):
+            # Parametrising an array type that already has its parameters selects another
+            # array type. The result is not derived from the parametrised type, it would
+            # be cached as a subclass of that type.
+            for base in cls.__mro__:
+                if "_SubTypes" in base.__dict__:
+                    return base[slice]
 
         assert (
             isinstance(slice, tuple) and len(slice) == 2
